@@ -40,6 +40,28 @@ impl C20Checker {
     }
 }
 
+impl C20Checker {
+    /// get_braille("") of a fresh session with the same files and preferences except BrailleNavHighlight=Off
+    fn braille_with_highlight_off(&mut self, s: &mut Sess, prefs: &BTreeMap<String, String>) -> Option<String> {
+        let dir = s.rules_dir.clone()?;
+        let src = s.cur_src.clone()?;
+        let language_is_auto = prefs.get("Language").map(|v| v == "Auto").unwrap_or(true);
+        let list: Vec<(String, String)> = prefs
+            .iter()
+            .filter(|(n, _)| language_is_auto || n.as_str() != "LanguageAuto")
+            .map(|(n, v)| (n.clone(), if n == "BrailleNavHighlight" { "Off".to_string() } else { v.clone() }))
+            .collect();
+        let list = order_prefs_for_reference(&list);
+        let fs = s.world.lock().fs.clone();
+        let r = reference_outputs(s, &fs, &dir, &list, &src);
+        if !r.setup_errors.is_empty() {
+            s.probe("highlight_off_reference_unavailable");
+            return None;
+        }
+        r.braille.ok().map(|b| b.to_string())
+    }
+}
+
 impl Checker for C20Checker {
     fn before_step(&mut self, s: &mut Sess, step: &Step) {
         self.before = None;
@@ -126,18 +148,45 @@ impl Checker for C20Checker {
                         // resolved id: the trace step's reference, resolved again (deterministic)
                         let id = s.resolve_id(idref);
                         let highlight = after.prefs.get("BrailleNavHighlight").cloned().unwrap_or_default();
+                        let code = after.prefs.get("BrailleCode").cloned().unwrap_or_default();
                         let in_expr = s.cur_ids.contains(&id);
                         match res {
                             Res::Ok(b) => {
-                                if (highlight == "Off" || !in_expr) && normalize_ids(b) != plain {
-                                    // (c)
+                                // (c) "the unhighlighted braille" is the braille with BrailleNavHighlight=Off: what a fresh session
+                                // with the same preferences except that one gives (get_braille("") of this session is only the
+                                // same call with the empty id, it goes through the same highlighting code)
+                                let unhighlighted = if highlight == "Off" { Some(plain.clone()) } else { self.braille_with_highlight_off(s, &after.prefs) };
+                                let expect_plain = highlight == "Off" || !in_expr;
+                                if expect_plain && normalize_ids(b) != plain {
                                     s.violation(
                                         "highlight-when-it-should-not",
                                         if highlight == "Off" { "braille differs from the unhighlighted braille although highlighting is Off".into() } else { "braille differs from the unhighlighted braille for an id that is not in the expression".into() },
                                         format!("get_braille({:?}) = {}\nget_braille(\"\") = {}", normalize_ids(&id), b, plain),
                                     );
+                                } else if let (true, Some(u)) = (expect_plain, unhighlighted.as_ref()) {
+                                    if b != u {
+                                        // known: Nemeth and Vietnam end table rows with the 8-dot cell U+28CD, which the highlighting
+                                        // code takes for a highlighted cell (dots 7 and 8 are its only marker)
+                                        let eight_dot_separator = (code == "Nemeth" || code == "Vietnam") && u.contains('\u{28cd}');
+                                        let what = if id.is_empty() { "the empty id" } else { "an id that is not in the expression" };
+                                        s.violation_g(
+                                            "highlight-when-it-should-not",
+                                            if eight_dot_separator {
+                                                "braille for an id that is not in the expression differs from the braille with highlighting Off: 8-dot row separator of a Nemeth/Vietnam table taken for a highlight".into()
+                                            } else {
+                                                format!("braille for {} differs from the braille with BrailleNavHighlight=Off", what)
+                                            },
+                                            if eight_dot_separator { "8-dot row separator".into() } else { "differs from braille with highlighting Off".into() },
+                                            format!("BrailleCode={} BrailleNavHighlight={}\nget_braille({:?}) = {}\nbraille with BrailleNavHighlight=Off = {}", code, highlight, normalize_ids(&id), b, u),
+                                        );
+                                    } else {
+                                        s.probe("unhighlighted_equal");
+                                        if highlight != "Off" {
+                                            s.probe("equals_braille_with_highlight_off");
+                                        }
+                                    }
                                 } else {
-                                    s.probe(if highlight == "Off" || !in_expr { "unhighlighted_equal" } else { "highlight_ok" });
+                                    s.probe(if expect_plain { "unhighlighted_equal" } else { "highlight_ok" });
                                 }
                             }
                             Res::Err(e) => {
@@ -188,7 +237,8 @@ pub fn random_trace(seed: u64) -> Trace {
     let n = rng.range(6, 60);
     for _ in 0..n {
         match rng.below(20) {
-            0..=4 => s.push(Step::Call(Op::Cmd(crate::props::c11::random_nav_command(&mut rng)))),
+            0..=3 => s.push(Step::Call(Op::Cmd(crate::props::c11::random_nav_command(&mut rng)))),
+            4 => s.push(Step::Call(Op::SetNavNode(if rng.chance(0.9) { IdRef::Nth(rng.below(30)) } else { IdRef::Stale(rng.below(10)) }, *rng.pick(&[0usize, 0, 1, 2, 3, 7])))),
             5 => s.push(Step::Call(Op::SetMathml(if rng.chance(0.3) {
                 ExprRef::Corpus(rng.below(pools::corpus().len()))
             } else if rng.chance(0.85) {
@@ -240,7 +290,7 @@ pub fn random_trace(seed: u64) -> Trace {
 /// every id and every cell of a few expressions, for each code and highlight style (quick: a rotating subset)
 pub fn directed(all: bool) -> Vec<Trace> {
     let mut v = Vec::new();
-    let exprs: &[usize] = if all { &[2, 3, 5, 8, 10, 12, 15, 19, 30, 31, 38, 50, 51, 52] } else { &[3, 8, 10, 19, 50, 51] };
+    let exprs: &[usize] = if all { &[2, 3, 5, 8, 10, 12, 15, 19, 30, 31, 38, 50, 51, 52, 53, 54] } else { &[3, 8, 10, 19, 50, 51, 53, 54] };
     for (ci, code) in CODES.iter().enumerate() {
         for (hi, hl) in pools::HIGHLIGHT.iter().enumerate() {
             let mut t = Trace::new("C20", "C20");
@@ -264,6 +314,17 @@ pub fn directed(all: bool) -> Vec<Trace> {
                     s.push(Step::Call(Op::Cmd(c.into())));
                     s.push(Step::Call(Op::BraillePos));
                     s.push(Step::Call(Op::Braille(IdRef::Nav)));
+                }
+                // what a screen reader does with a routing key: the node under the cell becomes the navigation node,
+                // with the offset the routing call reported; later moves start from there
+                for (k, offset) in [(2usize, 1usize), (4, 2), (6, 5)] {
+                    s.push(Step::Call(Op::SetNavNode(IdRef::Nth(k), offset)));
+                    s.push(Step::Call(Op::BraillePos));
+                    s.push(Step::Call(Op::Braille(IdRef::Nav)));
+                    s.push(Step::Call(Op::Cmd("MoveNext".into())));
+                    s.push(Step::Call(Op::BraillePos));
+                    s.push(Step::Call(Op::Cmd("ZoomOutAll".into())));
+                    s.push(Step::Call(Op::BraillePos));
                 }
             }
             t.sessions = vec![s];
